@@ -181,9 +181,10 @@ def runGen (op : String) (a : Json) : Except String Json := do
       let b ← (o.getObjValD "behavior").getStr?
       let d ← dictOfJson (o.getObjValD "data")
       let nh := (o.getObjValD "needsHash").getBool?.toOption.getD true
-      return (behaviorOf b, ({ data := d, needsHash := nh } : GenMap.GObj))
+      let bd ← (match o.getObjVal? "bin" with | .ok j => dictOfJson j | .error _ => pure [])
+      return (behaviorOf b, ({ data := d, needsHash := nh, bin := bd } : GenMap.GObj))
     return outToJson (fun (g : Option GenMap.GObj) => match g with
-      | some g => Json.mkObj [("data", dictToJson g.data), ("needsHash", Json.bool g.needsHash)]
+      | some g => Json.mkObj [("data", dictToJson g.data), ("needsHash", Json.bool g.needsHash), ("bin", dictToJson g.bin)]
       | none => Json.null) (GenMap.absorbAll none ops)
   | _ => throw s!"unknown gen op {op}"
 
